@@ -473,7 +473,7 @@ def _judge(res: dict, chain: str, remote_path: str, kinds: list[str], cls: str, 
             runner.add_obs(res, 'fresh_renamed')
         if os.path.lexists(full):
             # label: a candidate name that is long in bytes, or has regex metacharacters, is its own mechanism class
-            if comps and len(comps[-1].encode('utf-8', 'replace')) > 200:
+            if max(len(x.encode('utf-8', 'replace')) for x in (name, comps[-1] if comps else '')) > 200:
                 existing = 'long-' + cls
             else:
                 existing = 'regex-meta' if (comps and set(comps[-1]) & _REGEX_META) else cls
